@@ -840,6 +840,12 @@ def _run(ctx):
             b_arg = lambda: b_keep
         gm_arrs = [np.array([float(rng.randint(-5, 5)) for _ in range(rng.randint(1, 3))]) for _ in range(rng.randint(2, 3))]
         inputs = list(gm_arrs) + ([] if d == 1 else [n_keep, a_keep, b_keep])
+        # the beta / gamma parameters as kept 0-d arrays in a third of the histories (must stay untouched)
+        pa_in, pb_in = pa, pb
+        if d == 1 and hist_id % 3 == 0:
+            pa_in, pb_in = np.array(pa), np.array(pb)
+            inputs += [pa_in, pb_in]
+            ctx.count("history:0-d beta/gamma parameters")
         input_bits = [t_.tobytes() for t_ in inputs]
         vol = Fraction(1)
         for k in range(d):
@@ -922,8 +928,8 @@ def _run(ctx):
         }
         if d == 1:
             calls.update({
-                "beta": lambda: Q.qnwbeta(n0, pa, pb),
-                "gamma": lambda: Q.qnwgamma(n0, pa, pb),
+                "beta": lambda: Q.qnwbeta(n0, pa_in, pb_in),
+                "gamma": lambda: Q.qnwgamma(n0, pa_in, pb_in),
                 "norm0": lambda: Q.qnwnorm(n0),
                 "norm": lambda: Q.qnwnorm(n0, mu1, s1),
                 "logn": lambda: Q.qnwlogn(n0, mu1, s1),
@@ -1058,12 +1064,9 @@ def _run(ctx):
         ctx.count("argforms:accepted:" + label)
         for o, b0 in snap:
             if o.tobytes() != b0:
-                if tag == "gamma" and o.ndim == 0:
-                    # genuine on the clean tree (numba `a -= 1` on a 0-d array argument): counted until it is listed
-                    unlisted("qnwgamma-0d-shape-decremented", "qnwgamma decrements a 0-d array passed as the shape a in place "
-                             "(a repeated call with the same array then uses shape a-1)", rp)
-                else:
-                    ctx.spec_fail("argforms-input-modified", "%s with %s modified its input array" % (tag, label), rp)
+                # (qnwgamma used to decrement a 0-d array shape in place; repaired in /repo b8f7cdd — its own key on regression)
+                key = "qnwgamma-0d-shape-decremented" if (tag == "gamma" and o.ndim == 0) else "argforms-input-modified"
+                ctx.spec_fail(key, "%s with %s modified its input array" % (tag, label), rp)
         outs = [np.asarray(t_) for t_ in (out if isinstance(out, tuple) else (out,))]
         for arr in outs:
             for o, _ in snap:
@@ -1156,14 +1159,18 @@ def _run(ctx):
                 unlisted("qnwsimp-uint64-n", "qnwsimp: an unsigned 64-bit n raises a numba TypingError (n % 2, n += 1 on uint64)",
                          dict(rp0, form=label))
 
-    # dedicated probe: 0-d array parameters of qnwgamma (history of two identical calls)
-    a0d, b0d = np.array(3.0), np.array(5.0)
-    g1 = check_call("gamma", "n, a, b as 0-d arrays", lambda: Q.qnwgamma(4, a0d, b0d), [a0d, b0d], Q.qnwgamma(4, 3.0, 5.0),
-                    {"op": "qnwgamma", "n": 4, "a": "np.array(3.0)", "b": "np.array(5.0)"}, True)
-    if g1 is not None and float(a0d) == 3.0:
-        g2 = Q.qnwgamma(4, a0d, b0d)
-        if not np.array_equal(g1[0], g2[0]):
-            ctx.spec_fail("argforms", "qnwgamma(4, 0-d a, 0-d b) twice gives different nodes", {"op": "qnwgamma", "n": 4})
+    # 0-d array parameters of qnwgamma / qnwbeta: a history of two identical calls, inputs untouched, exact moments
+    for which, fn0, p1, p2 in [("gamma", Q.qnwgamma, 3.0, 5.0), ("beta", Q.qnwbeta, 2.5, 1.5)]:
+        a0d, b0d = np.array(p1), np.array(p2)
+        rp0 = {"op": "qnw" + which, "n": 4, "a": "np.array(%r)" % p1, "b": "np.array(%r)" % p2, "calls": 2}
+        ref0 = fn0(4, p1, p2)
+        for call in (1, 2):
+            g_ = check_call(which, "n, a, b as 0-d arrays", lambda: fn0(4, a0d, b0d), [a0d, b0d], ref0, dict(rp0, call=call), True)
+            if g_ is not None:
+                mom0 = mom_gamma(Fraction(p1), Fraction(p2)) if which == "gamma" else mom_beta(Fraction(p1), Fraction(p2))
+                spec_moments(which, "qnwgamma-0d-shape-decremented" if which == "gamma" else "argforms", g_[0], g_[1], mom0, 7,
+                             dict(rp0, call=call), lo=0, strict=True)
+        ctx.count("argforms:0-d parameters, two identical calls:" + which)
     # a vector n of a narrow integer dtype whose product does not fit that dtype (qnwequi uses prod(n) points)
     for ty, vec in [(np.int8, [20, 20]), (np.uint8, [16, 16]), (np.int16, [200, 200])][:ctx.n(2, 3)]:
         nvec = np.array(vec, dtype=ty)
